@@ -47,6 +47,8 @@ def run(ctx: Ctx) -> dict:
         # the IBANs that occur in practice
         pool = [gen.valid_iban(row, rng, "letters" if k == 1 else "random") for k in range(n)]
         pool += by_cc.get(gen.cc_of(row), [])
+        # zero-padded numbers with one or two significant characters (long zero runs)
+        pool += [gen.valid_iban(row, rng, "sparse") for _ in range(1 if ctx.quick else 6)]
         for iban in pool:
             seeds += 1
             ops.append({"op": "iban.new", "t": cps(iban), "vb": False, "err": "none"})
